@@ -80,6 +80,8 @@ def step (w : World) (line : String) : World × String :=
     match unhex k, unhex v with
     | some k, some v => (w.metaPut (name i) (name n) k v, "ok")
     | _, _ => (w, "bad-op")
+  | ["drop", i, n] =>
+    (w.drop (name i) (name n), "ok")
   | ["file", f, h] =>
     match unhex h with
     | some c => (w.setFile (name f) c, "ok")
